@@ -75,6 +75,12 @@ def extra(rep, impl_exe, model_exe, rng, tier):
                 probes.append("c13az %d %s" % (pct, J.hx("".join(rng.choice("ABCDEFGH IJKLMNOP") for _ in range(n)))))
                 probes.append("c13az %d %s" % (pct, J.hx(J.rand_text(rng, n))))
                 probes.append("c13az %d %s" % (pct, J.hx(bytes([rng.choice([0, 255])]) * n)))
+        # stuffing-heavy payloads around the compact limit: the explicit compact-4 request must be refused whenever the
+        # STUFFED message exceeds 64 words (the automatic path then picks the full-range symbol)
+        for pct in ((1, 5, 14) if tier == "quick" else (0, 1, 3, 5, 8, 10, 14, 16)):
+            for n in (range(52, 64) if tier == "quick" else range(44, 70)):
+                for b in (0, 255):
+                    probes.append("c13az %d %s" % (pct, J.hx(bytes([b]) * n)))
         # exactly 64 data words (the compact limit) at low percentages: every length around it
         for pct in ((0, 5, 15) if tier == "quick" else (0, 1, 3, 5, 10, 15, 16, 17)):
             for n in (range(96, 108) if tier == "quick" else range(60, 130)):
